@@ -315,21 +315,22 @@ func eqZone(a, b *zone) bool {
 // ------------------------------------------------------------------ atoms
 
 type prover struct {
-	p         *Program
-	fn        *ssa.Function
-	atoms     map[string]int
-	names     []string
-	stable    map[*types.Var]bool // fields never written in fn or its static module callees
-	ins       map[*ssa.BasicBlock][]*zone
-	visits    map[*ssa.BasicBlock]int
-	ip        *interproc
-	retB      map[int]ibound
-	callB     map[ssa.CallInstruction][]ibound
-	obRes     map[ssa.Instruction]*boundOb
-	untracked map[*ssa.Alloc]bool // locals whose address escapes: never tracked
-	wr        map[*types.Var]bool
-	want      map[ssa.Instruction]bool
-	sums      map[*ssa.Function]boolSummary
+	p          *Program
+	fn         *ssa.Function
+	atoms      map[string]int
+	names      []string
+	stable     map[*types.Var]bool // fields never written in fn or its static module callees
+	ins        map[*ssa.BasicBlock][]*zone
+	visits     map[*ssa.BasicBlock]int
+	ip         *interproc
+	retB       map[int]ibound
+	callB      map[ssa.CallInstruction][]ibound
+	obRes      map[ssa.Instruction]*boundOb
+	untracked  map[*ssa.Alloc]bool // locals whose address escapes: never tracked
+	wr         map[*types.Var]bool
+	incomplete bool
+	want       map[ssa.Instruction]bool
+	sums       map[*ssa.Function]boolSummary
 	// local variables captured by closures (any call may change them)
 	captured []*ssa.Alloc
 }
@@ -1580,6 +1581,10 @@ func (pv *prover) run() {
 			}
 		}
 	}
+	if len(work) > 0 {
+		// the fixpoint was not reached: nothing computed so far is an invariant
+		pv.incomplete = true
+	}
 	// final pass: record the facts before the instructions of interest (join over partitions)
 	for _, b := range fn.Blocks {
 		for _, st := range pv.ins[b] {
@@ -1696,7 +1701,7 @@ func (ip *interproc) resultBounds(callee *ssa.Function, k int) ibound {
 		return ibound{}
 	}
 	pv := ip.analyse(callee)
-	if pv == nil {
+	if pv == nil || pv.incomplete {
 		return ibound{}
 	}
 	return pv.retB[k]
@@ -1727,7 +1732,7 @@ func (ip *interproc) paramBounds(fn *ssa.Function, i int) (lo, hi int64, okLo, o
 			return 0, 0, false, false
 		}
 		pv := ip.analyse(caller)
-		if pv == nil {
+		if pv == nil || pv.incomplete {
 			return 0, 0, false, false
 		}
 		idx := i
@@ -1864,6 +1869,9 @@ func (pv *prover) record(in ssa.Instruction, z *zone) {
 	ob := pv.checkOb(in, z)
 	if ob == nil {
 		return
+	}
+	if pv.incomplete {
+		ob.Proved, ob.Detail = false, "the abstract interpretation of this function did not reach a fixpoint within its step budget"
 	}
 	if old := pv.obRes[in]; old != nil {
 		if !ob.Proved && old.Proved {
